@@ -1,7 +1,7 @@
 (* C03 - syntax faults: the declaration around the fault, the program around the declaration, `parse`. *)
 From Coq Require Import List Lia Arith Bool.
 From Spl Require Import Spec.Grammar Model.Parser Proofs.GrammarBase Proofs.GrammarExpr Proofs.GrammarStmt Proofs.GrammarProg.
-From Spl Require Import Proofs.SynFaults Proofs.SynFaultsStmt.
+From Spl Require Import Proofs.SynFaults Proofs.SynFaultsEP Proofs.SynFaultsArgs Proofs.SynFaultsStmt.
 Import ListNotations.
 Local Open Scope nat_scope.
 
@@ -96,6 +96,7 @@ Lemma la_var_dec_fstmt s Z k : at_ k (ffl_stmt s ++ Z) -> la_var_dec toks k = tr
 Proof.
   intros H. unfold la_var_dec, la_stmt, la_global.
   destruct s as [v c1 e|c1 f c2 a c3|c1 f c2 a c4|c1 c2 e t|c1 c2 e t c4 s'|c1 c2 e b
+                |v c1 e c2|v c1 e c2|c1 c2 e c3 t|c1 c2 e c3 t c4 s'|c1 c2 e c3 b|c1 f c2 a c3 c4
                 |c1 c2 e c3 t|c1 c2 e c3 t c4 s'|c1 c2 e c3 t c4 s'|c1 c2 e c3 b|c1 b c2]; cbn [ffl_stmt] in H; flat_in H.
   - rewrite fl_var_head in H. flat_in H.
     destruct (var_tl_next v c1 Assign (fl_cmp e ++ Z) eq_refl) as (c & kd & Z' & E & Hs & Hk).
@@ -109,6 +110,20 @@ Proof.
   - rewrite !(la_tag_at toks _ _ _ _ _ H eq_refl). reflexivity.
   - rewrite !(la_tag_at toks _ _ _ _ _ H eq_refl). reflexivity.
   - rewrite !(la_tag_at toks _ _ _ _ _ H eq_refl). reflexivity.
+  - rewrite SynFaultsEP.ffl_var_head in H. flat_in H.
+    destruct (fvar_tl_next v (cm c1 ++ Assign :: fl_cmp e ++ cm c2 ++ Semic :: Z)) as (c & Z' & E).
+    rewrite E in H. rewrite !(la_tag_at toks _ _ _ _ _ H eq_refl), !(la_ident_then_at toks _ _ _ _ _ H eq_refl).
+    cbn [is_ident]. apply at_cm_cons in H. rewrite !(la_tag_at toks _ _ _ _ _ H eq_refl). reflexivity.
+  - rewrite fl_var_head in H. flat_in H.
+    destruct (var_tl_next v c1 Assign (ffl_cmp e ++ cm c2 ++ Semic :: Z) eq_refl) as (c & kd & Z' & E & Hs & Hk).
+    rewrite E in H. rewrite !(la_tag_at toks _ _ _ _ _ H eq_refl), !(la_ident_then_at toks _ _ _ _ _ H eq_refl).
+    cbn [is_ident]. apply at_cm_cons in H. rewrite !(la_tag_at toks _ _ _ _ _ H Hs).
+    destruct Hk as [-> | ->]; reflexivity.
+  - rewrite !(la_tag_at toks _ _ _ _ _ H eq_refl). reflexivity.
+  - rewrite !(la_tag_at toks _ _ _ _ _ H eq_refl). reflexivity.
+  - rewrite !(la_tag_at toks _ _ _ _ _ H eq_refl). reflexivity.
+  - rewrite !(la_tag_at toks _ _ _ _ _ H eq_refl), !(la_ident_then_at toks _ _ _ _ _ H eq_refl).
+    cbn [is_ident]. apply at_cm_cons in H. rewrite !(la_tag_at toks _ _ _ _ _ H eq_refl). reflexivity.
   - rewrite !(la_tag_at toks _ _ _ _ _ H eq_refl). reflexivity.
   - rewrite !(la_tag_at toks _ _ _ _ _ H eq_refl). reflexivity.
   - rewrite !(la_tag_at toks _ _ _ _ _ H eq_refl). reflexivity.
@@ -223,13 +238,13 @@ Proof.
 Qed.
 
 (* the faulty variable declaration: `expect(;)` fails on the token behind it *)
-Lemma fvardecl_ok fuel d1 d2 y d3 t k rest : len (ffl_var d1 d2 y d3 t) <= fuel -> at_ k (ffl_var d1 d2 y d3 t ++ rest) ->
+Lemma fvardecl_ok fuel d1 d2 y d3 t k rest : len (ffl_vdecl d1 d2 y d3 t) <= fuel -> at_ k (ffl_vdecl d1 d2 y d3 t ++ rest) ->
   fol gapfol rest ->
-  p_vardecl toks fuel (mk k k) = POk (mk (k + len (ffl_var d1 d2 y d3 t)) k) (fxg_var e_real d1 d2 y d3 t).
+  p_vardecl toks fuel (mk k k) = POk (mk (k + len (ffl_vdecl d1 d2 y d3 t)) k) (fxg_vdecl e_real d1 d2 y d3 t).
 Proof.
-  intros Hf H Hfol. unfold ffl_var in H. flat_in H.
-  assert (Hl : len (ffl_var d1 d2 y d3 t) = len d1 + 1 + len d2 + 1 + len d3 + 1 + len (fl_type t)) by (flens; lia).
-  destruct Hfol as (cg & kg & restg & -> & Hsg & Hkg). unfold gapfol in Hkg. apply andb_prop in Hkg. destruct Hkg as [_ Hns].
+  intros Hf H Hfol. unfold ffl_vdecl in H. flat_in H.
+  assert (Hl : len (ffl_vdecl d1 d2 y d3 t) = len d1 + 1 + len d2 + 1 + len d3 + 1 + len (fl_type t)) by (flens; lia).
+  destruct Hfol as (cg & kg & restg & -> & Hsg & Hkg). unfold gapfolE in Hkg. apply andb_prop in Hkg. destruct Hkg as [_ Hns].
   apply negb_true_iff in Hns.
   unfold p_vardecl. comb.
   rewrite (p_comments_at toks k k _ _ _ H eq_refl). norm. apply at_cm in H.
@@ -240,7 +255,7 @@ Proof.
   rewrite (type_ok toks t _ _ (cm cg ++ kg :: restg) fuel (le_n _)) by side. norm. apply at_app in H.
   rewrite (p_tag_no toks (is_k Semic) _ k _ _ _ H Hsg Hns).
   unfold expect_error, push_err. norm. cbn [app].
-  rewrite Nat.sub_diag. unfold fxg_var, einfo, e_real, gap_err, msg_of_kind. cbv zeta. rewrite Hl. unfold x_ident, mkinfo. teq.
+  rewrite Nat.sub_diag. unfold fxg_vdecl, einfo, e_real, gap_err, msg_of_kind. cbv zeta. rewrite Hl. unfold x_ident, mkinfo. teq.
 Qed.
 
 Lemma vars_stmts_cmp vs b c6 rest : fol fol_cmp (flat_map fl_vardecl vs ++ fl_stmts b ++ cm c6 ++ RCurly :: rest).
@@ -252,24 +267,24 @@ Qed.
 
 (* the fault is the `;` of a variable declaration *)
 Lemma body_var vs1 d1 d2 y d3 t vs2 b c6 k0 k rest fuel : k0 <= k ->
-  6 * (len (flat_map fl_vardecl vs1) + len (ffl_var d1 d2 y d3 t) + len (flat_map fl_vardecl vs2) + len (fl_stmts b)) + 13 <= fuel ->
+  6 * (len (flat_map fl_vardecl vs1) + len (ffl_vdecl d1 d2 y d3 t) + len (flat_map fl_vardecl vs2) + len (fl_stmts b)) + 13 <= fuel ->
   else_oks b = true ->
-  at_ k (flat_map fl_vardecl vs1 ++ ffl_var d1 d2 y d3 t ++ flat_map fl_vardecl vs2 ++ fl_stmts b ++ cm c6 ++ RCurly :: rest) ->
+  at_ k (flat_map fl_vardecl vs1 ++ ffl_vdecl d1 d2 y d3 t ++ flat_map fl_vardecl vs2 ++ fl_stmts b ++ cm c6 ++ RCurly :: rest) ->
   fol gapfol (flat_map fl_vardecl vs2 ++ fl_stmts b ++ cm c6 ++ RCurly :: rest) ->
   exists tk4, body_p fuel (mk k k0) =
-    POk (mk (k + len (flat_map fl_vardecl vs1) + len (ffl_var d1 d2 y d3 t) + len (flat_map fl_vardecl vs2) + len (fl_stmts b) + len c6 + 1) k0)
-        (x_vardecls (k - k0) vs1 ++ (fxg_var e_real d1 d2 y d3 t, k - k0 + len (flat_map fl_vardecl vs1))
-           :: x_vardecls (k - k0 + len (flat_map fl_vardecl vs1) + len (ffl_var d1 d2 y d3 t)) vs2,
-         (x_stmts (k - k0 + len (flat_map fl_vardecl vs1) + len (ffl_var d1 d2 y d3 t) + len (flat_map fl_vardecl vs2)) b, Some tk4)).
+    POk (mk (k + len (flat_map fl_vardecl vs1) + len (ffl_vdecl d1 d2 y d3 t) + len (flat_map fl_vardecl vs2) + len (fl_stmts b) + len c6 + 1) k0)
+        (x_vardecls (k - k0) vs1 ++ (fxg_vdecl e_real d1 d2 y d3 t, k - k0 + len (flat_map fl_vardecl vs1))
+           :: x_vardecls (k - k0 + len (flat_map fl_vardecl vs1) + len (ffl_vdecl d1 d2 y d3 t)) vs2,
+         (x_stmts (k - k0 + len (flat_map fl_vardecl vs1) + len (ffl_vdecl d1 d2 y d3 t) + len (flat_map fl_vardecl vs2)) b, Some tk4)).
 Proof.
-  intros Hr Hf Hok H Hgap. unfold body_p. comb. pose proof (ffl_var_pos d1 d2 y d3 t) as Hvp.
+  intros Hr Hf Hok H Hgap. unfold body_p. comb. pose proof (ffl_vdecl_pos d1 d2 y d3 t) as Hvp.
   pose proof (vardecls_steps toks vs1 k k0 _ fuel Hr ltac:(lia) H) as Hst1. apply at_app in H.
   set (k1 := k + len (flat_map fl_vardecl vs1)) in *.
-  assert (Hst2 : steps (vardecl_ref toks fuel) (mk k1 k0) [(fxg_var e_real d1 d2 y d3 t, k1 - k0)] (mk (k1 + len (ffl_var d1 d2 y d3 t)) k0)).
+  assert (Hst2 : steps (vardecl_ref toks fuel) (mk k1 k0) [(fxg_vdecl e_real d1 d2 y d3 t, k1 - k0)] (mk (k1 + len (ffl_vdecl d1 d2 y d3 t)) k0)).
   { eapply steps_cons; [| |apply steps_nil].
     - unfold vardecl_ref. comb. rewrite (fvardecl_ok fuel d1 d2 y d3 t k1 _ ltac:(lia) H Hgap). norm. reflexivity.
     - cbn [pos]. lia. }
-  apply at_app in H. set (k2 := k1 + len (ffl_var d1 d2 y d3 t)) in *.
+  apply at_app in H. set (k2 := k1 + len (ffl_vdecl d1 d2 y d3 t)) in *.
   pose proof (vardecls_steps toks vs2 k2 k0 _ fuel ltac:(lia) ltac:(lia) H) as Hst3. apply at_app in H.
   pose proof (steps_app _ _ _ _ _ _ Hst1 (steps_app _ _ _ _ _ _ Hst2 Hst3)) as Hst. cbn [app] in Hst.
   pose proof (x_vardecls_len (k - k0) vs1) as Hn1. pose proof (x_vardecls_len (k2 - k0) vs2) as Hn3.
@@ -378,8 +393,8 @@ Proof.
   assert (Hgap : gapc_decl d (flat_map fl_decl post ++ cm ceof ++ [Eof])).
   { destruct d as [c1 c2 x c3 ps c4 c5 vs b c6|c1 c2 x c3 ps c4 c5 vs1 d1 d2 y d3 t vs2 b c6|c1 c2 x c3 ps c4 c5 vs b|c1 c2 x c3 t];
       cbn [gapc_decl]; try exact I.
-    - apply gapc_open; [|exact Hgo]. cbn [after_decl]. apply (proj2 after_stopper). apply fol_here; reflexivity.
-    - cbn [gk_decl gapc after_decl] in *. apply gap_open_fol'; [apply vars_stmts_cmp | exact Hgo]. }
+    - apply gapc_open; [|exact Hgo]. cbn [after_decl]. apply (proj2 after_any). apply fol_here; reflexivity.
+    - cbn [gk_decl gapc after_decl] in *. apply gap_open_E; [left; reflexivity | apply (fol_any fol_cmp), vars_stmts_cmp | exact Hgo]. }
   rewrite p_program_eq. comb.
   pose proof (gdecls_steps toks pre 0 0 _ fuel (le_n _) Hok1 ltac:(lia) H) as Hst1.
   apply at_app in H. cbn [Nat.add] in H, Hst1. rewrite Nat.sub_diag in Hst1.
